@@ -79,8 +79,16 @@ fn line(rng: &mut Rng, img: &RefImage) -> (String, bool) {
         2 => format!("{} {} {}", name, a, b),
         _ => format!("echo {}", rng.s(&["hello", "two words", "x3000 r1", "step", "-", "caf\u{e9}"])),
     };
-    let malformed = text.contains("r8") || text.contains("xyz") || text.contains("^^") || takes == 2;
-    (text.trim().to_string(), malformed)
+    let mut malformed = text.contains("r8") || text.contains("xyz") || text.contains("^^") || takes == 2;
+    let mut text = text.trim().to_string();
+    if rng.chance(1, 10) {
+        // white space that is not a blank between the words: tab, no-break space, em space,
+        // ideographic space (whatever the command language makes of them, the program must not notice)
+        let sep = *rng.pick(&["\t", "\u{a0}", "\u{2003}", "\u{3000}", " \u{a0}", "\u{a0} "]);
+        text = text.replacen(' ', sep, 1 + rng.below(2) as usize);
+        malformed = true;
+    }
+    (text, malformed)
 }
 
 pub fn run(cfg: &Cfg, col: &mut Collector) {
